@@ -1,5 +1,13 @@
 // Contracts and proof harnesses for contracts/axelar-gateway/src/contract.rs (entry points).
 use super::*;
+// named explicitly: the harness must not depend on which of these the file under verification happens to import
+use crate::error::ContractError;
+use crate::interface::AxelarGatewayInterface;
+use crate::messaging_interface::AxelarGatewayMessagingInterface;
+use crate::storage_types::{DataKey, MessageApprovalKey, MessageApprovalValue};
+use crate::types::{CommandType, Message, Proof, WeightedSigners};
+use soroban_sdk::xdr::ToXdr;
+use soroban_sdk::{Address, Bytes, BytesN, Env, String, Vec};
 use crate::auth::verif::{any_error, rotate_signers_contract, symbolic_proof, validate_proof_contract, wf, VP_RESULT};
 use soroban_sdk::shim::{self, inst, pers, Wordy, Words, MIGRATING_KEY, OPERATOR_KEY, OWNER_KEY};
 use soroban_sdk::Symbol;
